@@ -57,10 +57,10 @@ type Sim struct {
 	sigHash *core.Hash64
 	done    atomic.Bool
 
-	Policy         string // scheduling policy of this run: uniform | sticky | priority
-	prioLow        int
-	free           bool // free-running mode: hooks do nothing
-	stalling       bool // clock mode: advance may be chosen while tasks are runnable
+	Policy   string // scheduling policy of this run: uniform | sticky | priority
+	prioLow  int
+	free     bool // free-running mode: hooks do nothing
+	stalling bool // clock mode: advance may be chosen while tasks are runnable
 	// rootChildren counts goroutines first seen while no task was running
 	// (created by the harness root, e.g. the shard loop during Start).
 	rootChildren map[string]int
